@@ -1,0 +1,10 @@
+// +build !verif
+
+package masswallet
+
+// Simulation hooks (see simhook_verif.go). With the "verif" build tag off
+// they are empty and inlined away.
+
+func simYield(string) {}
+
+func simPreferQuit() bool { return false }
